@@ -521,18 +521,12 @@ func check(r *core.Run) {
 		cfgs = append(cfgs, "MCConc_3.cfg")
 		nB, nR = 400, 200
 	}
-	t0 := time.Now()
 	core.PoolSize = 6 // gated replays are timing sensitive: leave cores free
 	for _, cfg := range cfgs {
 		r.DirectionAC("conc", core.TLCOpts{Module: "MCConc", Cfg: cfg, Workers: 8}, nil, col)
 	}
 	core.PoolSize = 0
-	t1 := time.Now()
-	fmt.Fprintf(os.Stderr, "phase A %.1fs\n", time.Since(t0).Seconds())
 	core.SubmitCollect(r, "conc", 'B', nB, col)
-	fmt.Fprintf(os.Stderr, "phase B %.1fs\n", time.Since(t1).Seconds())
-	t1 = time.Now()
-	defer func() { fmt.Fprintf(os.Stderr, "phase validate+race %.1fs\n", time.Since(t1).Seconds()) }()
 	r.ValidateTrace("conc", col, core.TLCOpts{Module: "ConcurrencyTrace", Cfg: "ConcurrencyTrace.cfg"})
 	if bin := buildRace(r); bin != "" {
 		core.PoolBinary = bin
